@@ -90,6 +90,11 @@ RAW_CALLERS = {
     "grass_compiler::parse::value::ValueParser::parse_hex_color_contents": "u8 hex digits",
     "grass_compiler::parse::value::ValueParser::parse_identifier_like": "bytes of the named-colour table",
 }
+# which raw constructor each reviewed caller may use (the representations differ: new_rgba takes alpha in [0, 1], new takes a byte)
+RAW_CALLER_CTORS = {
+    "grass_compiler::parse::value::ValueParser::parse_hex_color_contents": {"new_rgba"},
+    "grass_compiler::parse::value::ValueParser::parse_identifier_like": {"new"},
+}
 BOUNDED_ALPHA_ROOTS = ("Number::clamp", "f64::clamp", "Color::alpha", "Color::as_hsla", "percentage_or_unitless", "update_value")
 
 
@@ -123,8 +128,12 @@ def rule_b(ctx):
             if nm in CONSTRUCTORS:
                 n += 1
                 key = "%s|calls %s" % (b.root, nm.rsplit("::", 1)[-1])
-                if b.root in RAW_CALLERS:
+                allowed_ctor = RAW_CALLER_CTORS.get(b.root)
+                if b.root in RAW_CALLERS and (allowed_ctor is None or nm.rsplit("::", 1)[-1] in allowed_ctor):
                     r.ok(key, why=RAW_CALLERS[b.root])
+                elif b.root in RAW_CALLERS:
+                    r.violate(key, "%s builds a colour with %s; it is reviewed for %s only (Color::new stores the alpha as a raw byte, which Color::alpha() and == "
+                              "interpret correctly only for the 0x00/0xFF of the named-colour table)" % (b.root, nm.rsplit("::", 1)[-1], sorted(allowed_ctor)), c.loc())
                 else:
                     r.violate(key, "%s calls the unchecked constructor %s directly; SassScript-facing code must use from_rgba/from_hsla/from_hwb" % (b.root, nm.rsplit("::", 1)[-1]), c.loc())
     r.floor("raw constructor call sites", n, 6)
